@@ -232,12 +232,22 @@ def trace_core(ctx, prop, runs, reject=0, large_every=None, fan_every=5):
     from concurrent.futures import ThreadPoolExecutor
     chunks = 1 if runs <= 12 else min(12, runs // 12)
     tf = os.path.join(ctx.scratch, f"trace-{prop}.ndjson")
-    if reject:
-        s = hv(ctx, "record", trace=tf, runs=runs, chunks=chunks, reject=1)
-    else:
-        if large_every is None:
-            large_every = 10 if ctx.quick else 15
-        s = hv(ctx, "record", trace=tf, runs=runs, chunks=chunks, large_every=large_every, fan_every=fan_every)
+    if large_every is None:
+        large_every = 10 if ctx.quick else 15
+    try:
+        if reject:
+            s = hv(ctx, "record", trace=tf, runs=runs, chunks=chunks, reject=1)
+        else:
+            s = hv(ctx, "record", trace=tf, runs=runs, chunks=chunks, large_every=large_every, fan_every=fan_every)
+    except ToolError as e:
+        # the recorder drives the real crate through random runs under catch_unwind; if the PROCESS dies (abort, stack overflow)
+        # that is behaviour of the code under test, not a tool error
+        os.makedirs(REPLAYS, exist_ok=True)
+        rp = os.path.join(REPLAYS, f"{prop}-recorder-died-seed{ctx.seed}.json")
+        json.dump({"cmd": "recorder-died", "property": prop, "seed": ctx.seed, "runs": runs, "large_every": large_every, "fan_every": fan_every, "reject": reject,
+                   "diffs": ["the process that drives the crate through recorded random runs died: " + str(e)[-400:]]}, open(rp, "w"), indent=1)
+        ctx.violations.append(dict(property=prop, what="the recorder process died while driving the crate through random runs (abort / stack overflow / crash in the code under test)", replay=rp))
+        return
     files = [tf] if chunks == 1 else [f"{tf}.{c}" for c in range(chunks)]
     idx = s["extra"]["runs"]
 
@@ -306,7 +316,15 @@ def trace_linkage(ctx, runs, max_n=12, only=None):
 def algo_drift(ctx, runs):
     """advisory: step events from the hooks must be steps of HpoAlgo's machines; mismatch = algorithm drift, never a violation"""
     tf = os.path.join(ctx.scratch, "algo.ndjson")
-    s = hv(ctx, "record-algo", trace=tf, runs=runs)
+    try:
+        s = hv(ctx, "record-algo", trace=tf, runs=runs)
+    except ToolError as e:
+        # advisory check: if the hook recorder cannot even run the crate (panic / abort in the code under test) the step-level
+        # model does not describe this code any more; the property checks proper report what is wrong
+        ctx.extra["algorithm_drift"] = True
+        ctx.extra["hook_events_validated"] = 0
+        log(f"ADVISORY algorithm drift: the hook recorder died: {str(e)[:160]}")
+        return
     try:
         ok, line_no = tlc_trace(ctx, "trace/TraceAlgo.cfg", "trace/TraceAlgo.tla", tf)
     except ToolError as e:
@@ -452,6 +470,7 @@ def check_C01(ctx):
     # the step-level machines (bound to the code by hook events) REFINE the abstract Builder (bound by replay): AlgoSpec => CoreSpec
     # under the mapping of MC_Refine (half-filled cache and in-flight link calls are invisible); whole pipeline, 3 ids, <= 1 (2) facts
     tlc(ctx, "mc/MC_Refine3q.cfg" if ctx.quick else "mc/MC_Refine3.cfg", "mc/MC_Refine.tla", workers=8 if ctx.quick else 14, timeout=3600)
+    outs.append(tlc(ctx, "mc/MC_CoreBig.cfg", "mc/MC_CoreBig.tla", workers=2)["out"])     # beyond the inline capacities: 12 direct parents, 35 ancestors
     allout = concat(ctx, outs, "c01-lines.txt")
     n = replay_lines(allout)
     if n == 0:
@@ -488,6 +507,7 @@ def check_C02(ctx):
     if not ctx.quick:
         outs.append(tlc(ctx, "mc/MC_AnnotHist4.cfg", "mc/MC_AnnotHist.tla", workers=14, timeout=1800)["out"])
     outs.append(sim_full(ctx, 60 if ctx.quick else 1500, 4 if ctx.quick else 8)["out"])
+    outs.append(tlc(ctx, "mc/MC_CoreBig.cfg", "mc/MC_CoreBig.tla", workers=2)["out"])     # facts on terms with 35 ancestors (ids growing / shrinking with depth), 12 direct parents
     allout = concat(ctx, outs, "c02-lines.txt")
     s = hv(ctx, "replay-core", prop="C02", **{"in": allout}, jax_every=(4 if ctx.quick else 1), concs="dense,roots0_1,random")
     ctx.traces += s.get("cases", 0)
@@ -512,6 +532,7 @@ def check_C03(ctx):
     for k in ("Gene", "Omim", "Orpha"):      # ontologies in which only one kind has any record
         outs.append(tlc(ctx, f"mc/MC_AnnotHistOnly{k}.cfg", "mc/MC_AnnotHist.tla", workers=8)["out"])
     outs.append(sim_full(ctx, 60 if ctx.quick else 1500, 4 if ctx.quick else 8)["out"])
+    outs.append(tlc(ctx, "mc/MC_CoreBig.cfg", "mc/MC_CoreBig.tla", workers=2)["out"])
     allout = concat(ctx, outs, "c03-lines.txt")
     s = hv(ctx, "replay-core", prop="C03", **{"in": allout}, jax_every=(4 if ctx.quick else 1), concs="dense,roots0_1,random")
     ctx.traces += s.get("cases", 0)
@@ -542,13 +563,14 @@ def check_C04(ctx):
 
 
 def check_C05(ctx):
-    ctx.rule = ("TLC enumerates every r x c integer matrix, r,c in 0..3 over {0,1,2} (+ wide shapes 1x5,5x2,4x3,2x4,6x1 over {0,5}), checks the transpose lemma "
+    ctx.rule = ("TLC enumerates every r x c integer matrix, r,c in 0..3 over {0,1,2} (+ wide shapes 1x5,5x2,4x3,2x4,6x1 over {0,5}; + shapes up to 3x3 over {-3,-1,2}), checks the transpose lemma "
                 "and prints the exact rational funSimAvg / funSimMax / BMA; the cache machine explores every sequence of <=2 set-level calls over all subsets "
                 "of 3 ids with an asymmetric F sharing one cache.  The harness injects the matrix through a user-supplied Similarity and compares "
-                "HpoSet::similarity, GroupSimilarity::calculate, SimilarityCombiner::calculate(Matrix) and the CachedSimilarity adaptor (3 id layouts); "
+                "HpoSet::similarity, GroupSimilarity::calculate, SimilarityCombiner::calculate(Matrix), the CachedSimilarity adaptor (3 id layouts), GroupSimilarity objects that live through the whole run, and sets built by From<Vec> from lists with repeated ids; "
                 "non-trivial = non-square or more than one cell / more than one call")
     outs = [tlc(ctx, "mc/MC_Combine.cfg", "mc/MC_Combine.tla")["out"],
             tlc(ctx, "mc/MC_CombineWide.cfg", "mc/MC_Combine.tla")["out"],
+            tlc(ctx, "mc/MC_CombineNeg.cfg", "mc/MC_Combine.tla")["out"],       # matrices with negative entries (a user-supplied similarity may return any number)
             tlc(ctx, "mc/MC_CombineBig.cfg", "mc/MC_Combine.tla", workers=2)["out"],     # random matrices up to 33x33 (beyond small-vector capacities)
             tlc(ctx, "mc/MC_Cache.cfg" if ctx.quick else "mc/MC_Cache3.cfg", "mc/MC_Cache.tla", workers=14, timeout=1800)["out"]]
     allout = concat(ctx, outs, "c05-lines.txt")
@@ -962,6 +984,22 @@ def replay(path):
         log(f"TOOL-ERROR: {e}")
         return 2
     v = json.load(open(path))
+    if v.get("cmd") == "recorder-died":
+        ctx = Ctx(v["property"], "quick", int(v.get("seed", 1)))
+        try:
+            n0 = len(ctx.violations)
+            trace_core(ctx, v["property"], int(v["runs"]), reject=int(v.get("reject", 0)), large_every=v.get("large_every"), fan_every=v.get("fan_every", 5))
+            if len(ctx.violations) > n0:
+                log("reproduced")
+                log(f"VIOLATION property={v['property']} replay={path}")
+                return 1
+            log("not reproduced on the current tree")
+            return 0
+        except ToolError as e:
+            log(f"TOOL-ERROR: {e}")
+            return 2
+        finally:
+            ctx.cleanup()
     if v.get("cmd") == "trace-linkage":
         ctx = Ctx("C17", "quick", int(v.get("seed", 1)))
         try:
@@ -980,6 +1018,11 @@ def replay(path):
     if v.get("cmd") in ("trace-core", "trace-binary"):
         return replay_trace(path, v)
     r = subprocess.run([HV, "replay-one", "--file", path])
+    if r.returncode not in (0, 1, 2):
+        # the replayed case kills the process (abort / stack overflow in the code under test): that IS the recorded outcome
+        log("reproduced: the process replaying the case died (signal / abort)")
+        log(f"VIOLATION property={v.get('property', '?')} replay={path}")
+        return 1
     return r.returncode
 
 
